@@ -1,7 +1,7 @@
 (* C08 — re-serialising what was read reproduces the file byte for byte.
    For the sections below: the reader returns the value whose wire form is the input, and the
    writer's output is that wire form; hence write (read bs) = bs.  Statements only. *)
-From Sbdf Require Import File PrimFacts SevenBit ObjFacts VaFacts SliceFacts FileFacts.
+From Sbdf Require Import File PrimFacts SevenBit ObjFacts VaFacts SliceFacts MdFacts TmFacts NormFacts FileFacts.
 
 Theorem C08_value_array : forall swp v tail budget, wf_va v -> byte_ok (vty v) -> zlen (enc_va swp v) <= budget ->
   exists v', va_read swp None (enc_va swp v ++ tail) = Ok (v', tail) /\ wrun (va_write swp v') budget = (SBDF_OK, enc_va swp v).
@@ -34,3 +34,27 @@ Proof.
   intros o' B'. rewrite B in B'. inversion B'. subst o'. now rewrite E.
 Qed.
 Print Assumptions C08_default_reencode_plain.
+
+(* the file-wide name list is stable: folding the columns as the reader re-expands them gives the
+   same names (cn n = n up to the strlen-cut of the name) in the same order *)
+Theorem C08_name_list_stable : forall cols names, Forall col_ok cols -> cols_dflt_wf cols -> fold_columns cols = Ok names ->
+  fold_columns (map (norm names) cols) = Ok (map cn names).
+Proof. exact fold_norm. Qed.
+Print Assumptions C08_name_list_stable.
+
+(* names built through the API carry no embedded NUL (sbdf_md_add stores strlen-many bytes) *)
+Theorem C08_api_names_plain : forall name v d m m', md_plain m -> md_add name v d m = Ok m' -> md_plain m'.
+Proof. exact md_add_plain. Qed.
+Print Assumptions C08_api_names_plain.
+
+(* whole files: read a library-written file (header, table metadata with any column metadata, any
+   number of slices in any encodings, end marker), write back what the reader returned - the
+   reader-owned structures, unchanged - and the very same bytes come out *)
+Theorem C08_file_rewrite : forall swp meta sls names budget, wf_file meta sls names -> names_plain (tcols meta) ->
+  zlen (enc_file swp meta sls names) <= budget ->
+  match read_table swp None None (enc_file swp meta sls names) with
+  | (Some T, st, _) => st = SBDF_TABLEEND /\ wrun (write_table swp T) budget = (SBDF_OK, enc_file swp meta sls names)
+  | _ => False
+  end.
+Proof. exact read_then_write_identity. Qed.
+Print Assumptions C08_file_rewrite.
